@@ -161,6 +161,8 @@ class SymStream:
 
     def write_array(self, array):
         if isinstance(array, SymArray):
+            if hasattr(array, 'frozen'):
+                array = array.frozen()  # a view of a reused buffer: what is written is its content NOW
             self._file.put(Rec('array', array.nbytes(), array, meta=array.dtype))
             return
         a = np.asarray(array)
